@@ -58,9 +58,24 @@ RULE = (
     "run of lines, bounds jittered by 1 ns / almost a sample) and queries that mostly repeat an earlier query on the newest "
     "object or an ancestor', 120/1500 histories on channels (numpy- and h5py-backed Continuous, TimeSeries), F,d curves, TIFF "
     "image stacks and track groups, and a malformed stream (out-of-range frame, empty slice, empty crop, slicing a processed "
-    "kymograph) whose errors must repeat identically. Every step is compared with a freshly built twin (only the ancestor "
+    "kymograph) whose errors must repeat identically. DERIVED FROM DERIVED (small scope, both tiers): on a 4-pixel kymograph "
+    "and a two-frame scan every pair (D1, D2) of derivations (crop keeping >= 2 rows, bin 2 pixels, bin 2 lines, flip, copy, "
+    "calibrate, drop the first line | frames 0:1, 1:2, frame -1, spatial crop, frames + spatial crop, copy), D2 applied to the "
+    "object D1 made, then for every query a: ask object 2 a, ask it a AGAIN, ask object 1 a, ask the source a, ask object 2 a "
+    "(thorough: also every chain of three derivations, and the pairs on a truncated-first-line kymograph); random: 120/2500 "
+    "histories that start with a chain of 2-3 such derivations (position factors 1-3, crops keeping at least half the rows) "
+    "and then keep repeating one question (one time in five the calibration / pixel-size block) on the newest object, its "
+    "ancestors and siblings. COLOURS THAT DIFFER (both tiers): a kymograph whose red / green / blue photon streams cover 2 / 3 "
+    "/ 4 of 4 lines and a two-frame scan whose streams end at three different samples of the last frame - every history of "
+    "length <= 2 (thorough: <= 3, sampled as above, two more kymographs: no red + unequal others, unequal ends + unequal early "
+    "starts) over the queries that reconstruct from a photon stream (get_image red / green (thorough and random: blue too), "
+    "timestamps, line / frame ranges, shape, duration) plus 'ask a, derive, ask b'; random: 120/2500 objects whose streams each end at their own sample "
+    "(at least two different ends before the end of the info wave; the third complete, short, equally short or absent; each "
+    "starting 0-2 samples before the scan), histories biased to those queries. "
+    "Every step is compared with a freshly built twin (only the ancestor "
     "derivations replayed) and with the Lean state machine; after the history every image/timestamp array handed out by a "
-    "confocal object is attacked with five in-place writes. Non-trivial: >=2 steps with a query after the first step."
+    "confocal object is attacked with five in-place writes. The calibration / pixel-size block copies every value at the "
+    "moment it is asked. Non-trivial: >=2 steps with a query after the first step."
 )
 TRUSTED = [
     "the model answers with provenance terms (which [start, stop) window a value was computed from, through which closures); "
@@ -70,6 +85,9 @@ TRUSTED = [
     "queries of object kinds without start-dependent state (channels, F,d curves, image stacks, track groups) are modelled as "
     "functions of the derivation path: for them the model tie coincides with the twin oracle",
     "cachetools.cachedmethod fetches the cache dict before calling the method (cachetools 5-7 behaviour)",
+    "Kymo.shape / duration are modelled on the red image; when the colours' photon streams end at different samples and the red "
+    "image of the asked (time-downsampled) kymograph has no columns, the column count comes from the next colour and is "
+    "pinned by the twin oracle only (rows, line time and everything else stay tied to the model)",
 ]
 ASSUMPTIONS = [
     "info wave and photon counts share one sampling grid; constant samples per pixel",
@@ -171,10 +189,16 @@ def cf_make(spec, start=None, stop=None):
 
 
 def cf_static(o, kind):
+    """calibration / pixel-size / pixel-count block; every value is copied (`val`) at the moment it is asked, so a list the
+    object hands out and later changes behind our back cannot rewrite an answer that was already given"""
     if kind == "kymo":
-        return [o.pixelsize, o.pixelsize_um, int(o.pixels_per_line), o.size_um, o.fast_axis, list(o._num_pixels),
-                o._calibration.unit, bool(o.contiguous), float(o._position_offset)]
-    return [o.pixelsize_um, int(o.pixels_per_line), int(o.lines_per_frame), o.size_um, o.fast_axis, list(o._num_pixels)]
+        getters = (lambda: o.pixelsize, lambda: o.pixelsize_um, lambda: int(o.pixels_per_line), lambda: o.size_um,
+                   lambda: o.fast_axis, lambda: list(o._num_pixels), lambda: o._calibration.unit, lambda: bool(o.contiguous),
+                   lambda: float(o._position_offset))
+    else:
+        getters = (lambda: o.pixelsize_um, lambda: int(o.pixels_per_line), lambda: int(o.lines_per_frame), lambda: o.size_um,
+                   lambda: o.fast_axis, lambda: list(o._num_pixels))
+    return [val(g()) for g in getters]
 
 
 def cf_query(o, kind, name):
@@ -236,7 +260,9 @@ def cf_derive(o, kind, op):
 
 
 def cf_alias(objs, kind):
-    """in-place write attempts through every image / timestamp array a confocal object hands out"""
+    """in-place write attempts through every image / timestamp array a confocal object hands out.  After every attempt that
+    wrote (or that failed on a writable array) the object is asked again; attempts that NumPy refuses on a read-only array
+    write nothing, so for them the object is asked again once, after the last attempt."""
     problems = []
     for idx, o in enumerate(objs):
         if o is None:
@@ -253,6 +279,21 @@ def cf_alias(objs, kind):
             if not isinstance(a, np.ndarray) or a.size == 0:
                 continue
             before = a.copy()
+
+            def changed(wname, outcome):
+                try:
+                    again = getter()
+                except Exception as e:
+                    problems.append(f"object {idx} {label}: query raised {errname(e)} after a {wname} attempt")
+                    return True
+                if again.shape != before.shape or not np.array_equal(again, before):
+                    problems.append(
+                        f"object {idx} {label}: in-place {wname} on the handed-out array ({outcome}) changed what the object reports"
+                    )
+                    return True
+                return False
+
+            pending = None
             for wname, write in (
                 ("setitem", lambda a: a.__setitem__((0,) * a.ndim, a.flat[0] + 5)),
                 ("iadd", lambda a: a.__iadd__(3)),
@@ -260,6 +301,7 @@ def cf_alias(objs, kind):
                 ("copyto", lambda a: np.copyto(a, 11)),
                 ("put", lambda a: a.put(0, 13)),
             ):
+                read_only = not a.flags.writeable
                 try:
                     write(a)
                     outcome = "written"
@@ -267,16 +309,14 @@ def cf_alias(objs, kind):
                     outcome = "refused"
                 except Exception as e:  # any other refusal is still a refusal
                     outcome = "refused:" + type(e).__name__
-                try:
-                    again = getter()
-                except Exception as e:
-                    problems.append(f"object {idx} {label}: query raised {errname(e)} after a {wname} attempt")
+                if outcome == "refused" and read_only:
+                    pending = (wname, outcome)
+                    continue
+                pending = None
+                if changed(wname, outcome):
                     break
-                if again.shape != before.shape or not np.array_equal(again, before):
-                    problems.append(
-                        f"object {idx} {label}: in-place {wname} on the handed-out array ({outcome}) changed what the object reports"
-                    )
-                    break
+            if pending:
+                changed(*pending)
     return problems
 
 
@@ -306,6 +346,7 @@ class ChannelFamily(PureFamily):
 
     def __init__(self):
         self._files = []
+        self._datasets = {}
 
     def build(self, spec):
         from lumicks.pylake.channel import Continuous, Slice, TimeSeries
@@ -315,13 +356,19 @@ class ChannelFamily(PureFamily):
             if spec.get("h5"):
                 import h5py
 
-                f = h5py.File(f"c19-{id(self)}-{len(self._files)}.h5", "w", driver="core", backing_store=False)
-                self._files.append(f)
-                ds = f.create_dataset("Force HF/Force 1x", data=data)
-                ds.attrs["Start time (ns)"] = spec["start"]
-                ds.attrs["Stop time (ns)"] = spec["start"] + len(data) * spec["dt"]
-                ds.attrs["Sample rate (Hz)"] = 1e9 / spec["dt"]
-                ds.attrs["Kind"] = "Continuous"
+                # one in-memory file per object description; every build makes a NEW pylake object over its dataset, after
+                # checking that the stored samples are still the described ones (otherwise a new file is written)
+                key = json.dumps(spec, sort_keys=True)
+                ds = self._datasets.get(key)
+                if ds is None or ds.shape != data.shape or not np.array_equal(ds[()], data):
+                    f = h5py.File(f"c19-{id(self)}-{len(self._files)}.h5", "w", driver="core", backing_store=False)
+                    self._files.append(f)
+                    ds = f.create_dataset("Force HF/Force 1x", data=data)
+                    ds.attrs["Start time (ns)"] = spec["start"]
+                    ds.attrs["Stop time (ns)"] = spec["start"] + len(data) * spec["dt"]
+                    ds.attrs["Sample rate (Hz)"] = 1e9 / spec["dt"]
+                    ds.attrs["Kind"] = "Continuous"
+                    self._datasets[key] = ds
                 return Continuous.from_dataset(ds)  # a Slice over a lazily read dataset
             return Slice(Continuous(data, spec["start"], spec["dt"]), {"title": "t", "y": "y"})
         return Slice(TimeSeries(data, np.asarray(spec["ts"], dtype=np.int64)), {"title": "t", "y": "y"})
@@ -375,6 +422,7 @@ class ChannelFamily(PureFamily):
             except Exception:
                 pass
         self._files = []
+        self._datasets = {}
 
 
 class FdFamily(PureFamily):
@@ -771,11 +819,26 @@ def plain_window(spec, s, e):
     return [i for i in range(len(spec["iw"])) if s <= T0 + i * dt < e]
 
 
+def colour_extents_differ(spec):
+    """the photon streams of the colours do not all end at the same info-wave sample (an absent colour reconstructs as a
+    complete image of zeros, i.e. counts as covering everything)"""
+    n = len(spec["iw"])
+    return len({min(n, v[0] + len(v[1])) if v and v[1] else n for v in spec["chans"].values()}) > 1
+
+
 class Evaluator:
     def __init__(self, case):
         self.case = case
         self.spec = case["obj"]
         self.clean = {}
+        self.differ = colour_extents_differ(self.spec)
+
+    def columns_open(self, img, twin_cols):
+        """Kymo.shape takes the first colour whose image is not empty.  The model answers with the provenance of the RED image;
+        when that image has no columns and the colours differ in extent, the number of columns comes from another colour,
+        which the provenance term does not determine: then (and only then) any whole number of columns is accepted here,
+        and the answer is pinned by the twin oracle alone."""
+        return self.differ and img.size == 0 and isinstance(twin_cols, int) and not isinstance(twin_cols, bool) and twin_cols >= 0
 
     def obj(self, s, e):
         if (s, e) not in self.clean:
@@ -919,7 +982,10 @@ class Evaluator:
                 return val(self.raw(t))
             if q == "shape":
                 if self.case["family"] == "kymo":
-                    return list(self.raw(t).shape) + [3]
+                    img = self.raw(t)
+                    if isinstance(twin_value, list) and len(twin_value) == 3 and self.columns_open(img, twin_value[1]):
+                        return [img.shape[0], twin_value[1], 3]
+                    return list(img.shape) + [3]
                 nf = self.raw(t)
                 rest = twin_value[-3:] if isinstance(twin_value, list) else twin_value
                 return ([nf] if nf > 1 else []) + rest if isinstance(rest, list) else rest
@@ -933,7 +999,12 @@ class Evaluator:
             if q == "duration":
                 if not (isinstance(t, tuple) and t[0] == "pair"):
                     raise Err(self.errors_only(t))
-                return float(self.raw(t[1][0])) * self.raw(t[1][1]).shape[1]
+                lt, img = float(self.raw(t[1][0])), self.raw(t[1][1])
+                if isinstance(twin_value, float) and lt > 0:
+                    cols = round(twin_value / lt)
+                    if self.columns_open(img, cols) and same(twin_value, lt * cols):
+                        return lt * cols
+                return lt * img.shape[1]
         except Err as e:
             name = str(e)
             return {"error": name} if not name.startswith("unevaluable") else {"unevaluable": name}
@@ -1187,11 +1258,22 @@ class Tracker:
                     "numFrames", "static.0"]
         return list(family(self.fam).queries)
 
-    def derive(self, rng, i):
-        """a (mostly valid) derivation of object i; registers the new object"""
+    def colour_queries(self):
+        """the queries that reconstruct something from a photon stream: every colour plane, the timestamps (first colour
+        that has data) and what is computed from them"""
+        return ["image.r", "image.g", "image.b", "ts.mean", "lineRanges", "shape"] + (["duration"] if self.fam == "kymo" else [])
+
+    def derive(self, rng, i, views=False):
+        """a (mostly valid) derivation of object i; registers the new object.  views: mostly derivations whose factories
+        are closures over object i (crop, downsample, flip), with position factors of 2 and 3"""
         m = dict(self.objs[i])
         if self.fam == "kymo":
-            choice = rng.choice(["copy", "kbp", "slice", "slice", "crop", "crop", "down", "flip"])
+            if views:
+                choice = rng.choice(["crop", "crop", "crop", "down", "down", "down", "flip", "kbp", "copy", "slice"])
+                if choice == "slice" and not m["root"]:
+                    choice = "crop"  # a time slice of a processed kymograph raises (that is the malformed stream's subject)
+            else:
+                choice = rng.choice(["copy", "kbp", "slice", "slice", "crop", "crop", "down", "flip"])
             if choice == "kbp" and m["kbp"]:
                 choice = "copy"
             # flip: only of objects with default factories (a flipped view calls the view's factory FUNCTIONS, not its
@@ -1212,13 +1294,19 @@ class Tracker:
                 a = rng.choice([None, None, self.kymo_times(rng)])
                 b = rng.choice([None, None, self.kymo_times(rng)])
                 op = ["d", i, "slice", a, b]
+            elif choice == "crop" and views:
+                # keeps at least half of the rows, so that the cropped kymograph can still be cropped / binned again
+                p0 = rng.randint(0, m["rows"] // 2)
+                p1 = rng.randint(max(p0 + 1, m["rows"] - m["rows"] // 2), m["rows"])
+                op = ["d", i, "crop", p0, p1]
+                m["rows"], m["root"] = p1 - p0, False
             elif choice == "crop":
                 p0 = rng.randint(0, m["rows"] - 1)
                 p1 = rng.randint(p0 + 1, m["rows"])
                 op = ["d", i, "crop", p0, p1]
                 m["rows"], m["root"] = p1 - p0, False
             elif choice == "down":
-                pf = rng.randint(1, min(2, m["rows"]))
+                pf = max(1, min(m["rows"], rng.choice([1, 2, 2, 2, 3]))) if views else rng.randint(1, min(2, m["rows"]))
                 tf = rng.choice([1, 1, 2])
                 op = ["d", i, "down", tf, pf]
                 m["rows"], m["root"] = m["rows"] // pf, False
@@ -1259,10 +1347,10 @@ class Tracker:
         return op
 
 
-def random_history(rng, fam, obj, length, p_derive=0.3):
+def random_history(rng, fam, obj, length, p_derive=0.3, qs=None):
     tr = Tracker(fam, obj)
     hist = []
-    qs = tr.queries()
+    qs = qs or tr.queries()
     for _ in range(length):
         # address the source, the newest object, or any object
         n = len(tr.objs)
@@ -1302,6 +1390,27 @@ def random_history_derived(rng, fam, obj, length):
             hist.append(op)
         else:
             ask(rng.choice([n - 1, n - 1, n - 1, rng.randint(0, n - 1)]))
+    return hist
+
+
+def random_history_chain(rng, fam, obj, length):
+    """objects derived from DERIVED objects: a chain of 2-3 derivations, each of the newest object (kymographs: mostly crop /
+    downsample / flip, whose factories close over the object they were made from), then queries that mostly REPEAT one
+    question (often the calibration / pixel-size block) - on the newest object, on one of the objects it was derived from,
+    on the source - and now and then a sibling derived from an object that has been asked already"""
+    tr = Tracker(fam, obj)
+    qs = tr.queries()
+    focus = rng.choice(["static.0", "static.0", "static.0"] + qs)  # the question this history keeps coming back to
+    hist, asked = [], False
+    for _ in range(min(rng.randint(2, 3), max(1, length - 2))):
+        hist.append(tr.derive(rng, len(tr.objs) - 1, views=True))
+    while len(hist) < length:
+        n = len(tr.objs)
+        if n < 5 and asked and rng.chance(0.15):
+            hist.append(tr.derive(rng, rng.randint(0, n - 1), views=True))
+            continue
+        asked = True
+        hist.append(["q", rng.choice([n - 1, n - 1, rng.randint(0, n - 1)]), focus if rng.chance(0.65) else rng.choice(qs)])
     return hist
 
 
@@ -1385,6 +1494,38 @@ SCAN_DERIVS = [
 ]
 
 
+def view_derivs(h, t, obj):
+    """the derivations tried on object t of history h in the derived-from-derived scope (functions of its pixel rows and
+    of how it was made)"""
+    if obj["kind"] == "scan":
+        return [["frames", 0, 1], ["frames", 1, 2], ["frame", -1], ["cropxy", 0, 1, 0, 1], ["framecrop", 0, 2, 0, 1, 0, 2], ["copy"]]
+    r = rows_of(h, t, obj["P"])
+    out = [["crop", 1 if r >= 2 else 0, r - 1 if r >= 4 else r], ["down", 2, 1], ["copy"]]
+    if r >= 2:
+        out.append(["down", 1, 2])
+    if not is_view(h, t):
+        L = line_starts_plain(obj)
+        out.append(["slice", L[1], None])
+        if r >= 2:
+            out.append(["flip"])
+    if not any(o[0] == "d" and o[2] == "kbp" for o in h):
+        out.append(["kbp", 2.0 * r])
+    return out
+
+
+def chain_histories(fam, obj, alphabet_q, depth=2):
+    """objects derived from DERIVED objects, every chain (D1, D2[, D3]) of derivations, each of the newest object, and every
+    query a:   depth 2: [D1, D2, ask object 2 a, ask it a again, ask object 1 a, ask the source a, ask object 2 a]
+               depth 3: [D1, D2, D3, ask object 3 a, ask it a again, ask object 2 a, ask object 1 a, ask object 3 a]
+    (idempotence on the newest object; what it was derived from answers as before after the newest one has been asked;
+    the newest one answers as before after its ancestors have been asked)"""
+    chains = [[]]
+    for level in range(depth):
+        chains = [h + [["d", level] + d] for h in chains for d in view_derivs(h, level, obj)]
+    asked = [depth, depth] + list(range(depth - 1, -1, -1))[: 5 - depth] + [depth]
+    return [h + [["q", t, a] for t in asked] for h in chains for a in alphabet_q]
+
+
 def line_starts_plain(obj):
     """timestamp of the first sample of every scan line, from the info wave alone (lines are separated by dead time)"""
     iw, dt = obj["iw"], obj["dt"]
@@ -1408,7 +1549,7 @@ def line_slices(obj):
     return out
 
 
-def derive_after_query_histories(fam, obj, alphabet_q):
+def derive_after_query_histories(fam, obj, alphabet_q, slice_pairs=True):
     """histories in which an object is ASKED FIRST and a derived object is made and asked AFTERWARDS: nothing the source
     (or a derived object) has memoised may reach the object derived from it.
       [q0 a, D, q1 b]             every pair (a, b) of queries, every derivation D (one-line / last-line time slices, whole
@@ -1434,7 +1575,7 @@ def derive_after_query_histories(fam, obj, alphabet_q):
             out.append([["d", 0] + d, ["q", 1, a], ["q", 1, a]])
             out.append([["d", 0] + d, ["q", 1, a], ["q", 0, a]])
             out.append([["d", 0] + d, ["q", 0, a], ["q", 1, a]])
-    for d in slices:
+    for d in slices if slice_pairs else []:
         for d2 in slices:
             for a in alphabet_q:
                 out.append([["q", 0, a], ["d", 0] + d, ["d", 1] + d2, ["q", 2, a]])
@@ -1565,6 +1706,54 @@ def confocal_objects(quick):
             ("scan", scan_obj(2, 2, 2, 1, 1, 1, 1, 0, 1, late=1)),  # truncated scan: photon access raises
         ]
     return objs
+
+
+def colour_objects(quick):
+    """fixed objects of the per-colour scope: the photon streams of the colours DIFFER (each ends at its own sample, before the
+    end of the info wave), so whatever is reconstructed from one colour has its own extent"""
+    objs = [
+        # info wave of 4 lines; red covers 2 lines, green 3 lines, blue everything
+        ("kymo", kymo_obj(2, 4, 1, 1, 1, short={"red": 7, "green": 10})),
+        # two frames; every stream ends inside the last frame: red after its first pixel, green after its first line
+        ("scan", scan_obj(2, 2, 2, 1, 1, 1, 2, 0, 1, short={"red": 10, "green": 12})),
+    ]
+    if not quick:
+        objs += [
+            ("kymo", kymo_obj(2, 4, 2, 0, 2, short={"green": 9, "blue": 14}, absent=("red",))),  # no red: green gives the timestamps
+            ("kymo", kymo_obj(3, 3, 1, 1, 1, short={"red": 12, "green": 6, "blue": 9}, early={"red": 2, "green": 1})),
+        ]
+    return objs
+
+
+def random_confocal_colours(rng):
+    """objects whose colour channels differ: every photon stream ends at its own sample (some cover the whole info wave,
+    some are absent, at least two end at different samples before the end of the info wave) and starts its own number
+    of samples before the scan"""
+    cols = list(bc.COLORS)
+    kw = {"salt": rng.randint(0, 9), "dt": rng.choice([12800, 1000, 16])}
+    if rng.chance(0.65):
+        fam = "kymo"
+        P, lines, k = rng.randint(1, 4), rng.randint(2, 5), rng.randint(1, 3)
+        lead_in, dead = rng.randint(0, 3), rng.randint(1, 3)
+        n = len(bc.infowave(P, lines, k, lead_in=lead_in, dead=dead, tail=1))
+        lo = max(2, lead_in + P * k + 1)  # the first line is complete
+    else:
+        fam = "scan"
+        P, L, frames, k = rng.randint(2, 3), rng.randint(2, 3), rng.randint(1, 3), rng.randint(1, 2)
+        fast, slow = rng.choice([(0, 1), (1, 0), (0, 2), (2, 1)])
+        lead_in, dead, fd = rng.randint(0, 2), rng.randint(0, 2), rng.randint(0, 3)
+        full = bc.infowave(P, L * frames, k, lead_in=lead_in, dead=dead, L=L, frame_dead=fd, tail=1)
+        n = len(full)
+        lo = [j for j, c in enumerate(full) if c == 2][(frames - 1) * P * L] + 1  # ends inside the LAST frame (see ASSUMPTIONS)
+    rng.shuffle(cols)
+    ends = rng.sample(list(range(lo, n)), 2)  # two colours that end at different samples
+    ends.append(rng.choice([n, n, rng.randint(lo, n - 1), ends[0], None]))  # the third: complete, short, equally short, absent
+    early = {c: rng.choice([0, 0, 0, 1, 2]) for c in cols}
+    short = {c: e + early[c] for c, e in zip(cols, ends) if e is not None and e < n}
+    kw.update(short=short, early=early, absent=tuple(c for c, e in zip(cols, ends) if e is None))
+    if fam == "kymo":
+        return fam, kymo_obj(P, lines, k, lead_in, dead, **kw), "colours"
+    return fam, scan_obj(P, L, frames, k, lead_in, dead, fd, fast, slow, **kw), "colours"
 
 
 def random_confocal(rng):
@@ -1731,6 +1920,54 @@ def cases(tier, rng):
         fam, obj, mode = random_confocal(sub)
         yield {"stream": "random-derived", "family": fam, "obj": obj, "hist": random_history_derived(sub, fam, obj, sub.randint(3, 8)),
                "subseed": i, "mode": mode}
+    # ---- small scopes added later (placed and forked after everything above: the streams above stay what they were)
+    # objects derived from derived objects: every pair of derivations, asked repeatedly on the newest object, then on what it
+    # was derived from (4-pixel kymograph, so that a cropped kymograph can still be binned; scan with two frames)
+    chain_scope = [("kymo", kymo_obj(4, 3, 1, 1, 2), ["static.0", "image.r", "lineTime", "pixelTime", "lineRanges", "duration"]),
+                   ("scan", scan_obj(2, 2, 2, 1, 1, 1, 2, 0, 1), ["static.0", "image.r", "ts.mean", "pixelTime", "shape"])]
+    if not quick:
+        late_obj = kymo_obj(4, 4, 2, 0, 2, drop=1, late=2)  # truncated first line
+        chain_scope.append(("kymo", late_obj, Tracker("kymo", late_obj).queries()))
+    for fam, obj, qs in chain_scope:
+        for h in chain_histories(fam, obj, qs):
+            yield {"stream": "small-scope-chain", "family": fam, "obj": obj, "hist": h}
+    if not quick:  # three derivations deep (crop -> copy / calibrate -> bin ...)
+        for fam, obj, qs in chain_scope[:2]:
+            for h in chain_histories(fam, obj, qs[:3], depth=3):
+                yield {"stream": "small-scope-chain", "family": fam, "obj": obj, "hist": h}
+    # colour channels that differ (every photon stream ends at its own sample): every history of length <= 2 over the queries
+    # that reconstruct from a photon stream, asked / derived / asked, and (thorough) the sampled length-3 scope
+    r7 = rng.fork("colour-scope")
+    for fam, obj in colour_objects(quick):
+        cq = Tracker(fam, obj).colour_queries()
+        if quick:
+            cq.remove("image.b")
+        derivs = (KYMO_DERIVS if quick else KYMO_DERIVS_MORE) if fam == "kymo" else SCAN_DERIVS
+        seen = set()
+        for h in exhaustive_histories(fam, obj, cq, derivs, 2 if quick else 3):
+            if len(h) <= 2 or keep_len3(h) or r7.chance(0.03):
+                seen.add(json.dumps(h))
+                yield {"stream": "small-scope-colours", "family": fam, "obj": obj, "hist": h}
+        for h in derive_after_query_histories(fam, obj, cq, slice_pairs=not quick):
+            if json.dumps(h) not in seen:
+                seen.add(json.dumps(h))
+                yield {"stream": "small-scope-colours", "family": fam, "obj": obj, "hist": h}
+    # ---- seeded random (forked after everything above): chains of derived objects; colour channels that differ
+    r8 = rng.fork("c19-random-chain")
+    for i in range(120 if quick else 2500):
+        sub = r8.fork(i)
+        fam, obj, mode = random_confocal(sub)
+        yield {"stream": "random-chain", "family": fam, "obj": obj, "hist": random_history_chain(sub, fam, obj, sub.randint(6, 8)),
+               "subseed": i, "mode": mode}
+    r9 = rng.fork("c19-random-colours")
+    for i in range(120 if quick else 2500):
+        sub = r9.fork(i)
+        fam, obj, mode = random_confocal_colours(sub)
+        tr = Tracker(fam, obj)
+        qs = tr.colour_queries() * 2 + tr.queries()
+        hist = (random_history(sub, fam, obj, sub.randint(2, 8), 0.25, qs=qs) if sub.chance(0.6)
+                else random_history_chain(sub, fam, obj, sub.randint(4, 8)))
+        yield {"stream": "random-colours", "family": fam, "obj": obj, "hist": hist, "subseed": i, "mode": mode}
 
 
 def fix_second_ref(o, nd, shift):
